@@ -267,7 +267,7 @@ func init() {
 
 func init() {
 	register(&PropSpec{ID: "C05",
-		Explain:     "Decides structural necessary conditions of `Diff is empty iff Equals`: (R-OPTFWD, diff side) every comparison a diff function makes — Equals, hashCode, ident, dispatch, nested diff — receives the caller's own options, so Diff decides under the options Equals is asked about; (R-CONGRUENCE) an option kind consulted by a type's Equals is consulted by its hashCode, because list diff matches elements by hashCode; (R-HASHDOM restricted to the scalar types that can be list elements) hash inputs carry a type tag, else two unequal elements are matched as common; (R-NOEMPTY) accumulated hunks are emitted only if non-empty and the scalar diff returns the empty diff exactly on the Equals-true edge; CLI half: exit status 1 lies exactly on the edge where the diff routine reports a difference, that boolean is `rendered output != the library's empty rendering`, the sentinels agree with the library, and the CLI hands its options to Diff unchanged. (R-EQSIZE) one-sided container comparisons compare both lengths.",
+		Explain:     "Decides structural necessary conditions of `Diff is empty iff Equals`: (R-OPTFWD, diff side) every comparison a diff function makes — Equals, hashCode, ident, dispatch, nested diff — receives the caller's own options, so Diff decides under the options Equals is asked about; (R-CONGRUENCE) an option kind consulted by a type's Equals is consulted by its hashCode, because list diff matches elements by hashCode; (R-HASHDOM restricted to the scalar types that can be list elements) hash inputs carry a type tag, else two unequal elements are matched as common; (R-NOEMPTY) accumulated hunks are emitted only if non-empty and the scalar diff returns the empty diff exactly on the Equals-true edge; CLI half: exit status 1 lies exactly on the edge where the diff routine reports a difference, that boolean is `rendered output != the library's empty rendering`, the sentinels agree with the library, and the CLI hands its options to Diff unchanged. (R-EQSIZE) one-sided container comparisons compare both lengths. R-CLI/AB: the two documents the CLI hands to Diff derive from disjoint inputs on every path. R-OPTFWD also follows calls into helpers that take no options: whatever they call that takes options is reported.",
 		NotDecided:  "Whether a non-empty merge diff can render as the sentinel {} (it can: `1` vs `{}`), how tolerance and hashing could be made to agree, digest collisions.",
 		Assumptions: commonAssumptions,
 		Run: func(w *World, r *Report) {
@@ -438,7 +438,7 @@ func init() {
 			r.Floor("R-PTR", 6)
 		}})
 	register(&PropSpec{ID: "C10",
-		Explain:     "Decides structural necessary conditions of `never more permissive than RFC 6902`: (R-OPSUBSET) the reader's op vocabulary is exactly add/remove/test, a test commits only if the next op is a remove of the same pointer with an equal value (each failing side only returns errors), any other op only reaches error returns; (R-PARENT) a test op is consumed as list context only after its pointer was related to the edit's pointer beyond the last index (same array); (R-PTRREAD) pointer tokens are decoded, \"-\" maps to -1, digits to indices; (R-PREPEND) a coalesced add is placed in front of those already collected; (R-FWD on before/after) the context the reader records reaches the array it belongs to at any depth. (R-CTXINDEX) the writer whose output the reader must reproduce addresses index-1 / index+len(Remove). Negative rows of R-PATCHSEQ: a test that is not adjacent to the edit is never folded into before-context, a test above the edit never into after-context. R-DASHAPPEND: the index -1 exit commits only behind loops that let nothing but the boundary marker pass as context, and appends behind the members. R-PREPEND/R-COALESCE: adds coalesced at the append position keep their order; an element with context of its own is not folded into the previous hunk. R-PARENT/R-OPSUBSET compare fields of two different ops.",
+		Explain:     "Decides structural necessary conditions of `never more permissive than RFC 6902`: (R-OPSUBSET) the reader's op vocabulary is exactly add/remove/test, a test commits only if the next op is a remove of the same pointer with an equal value (each failing side only returns errors), any other op only reaches error returns; (R-PARENT) a test op is consumed as list context only after its pointer was related to the edit's pointer beyond the last index (same array); (R-PTRREAD) pointer tokens are decoded, \"-\" maps to -1, digits to indices; (R-PREPEND) a coalesced add is placed in front of those already collected; (R-FWD on before/after) the context the reader records reaches the array it belongs to at any depth. (R-CTXINDEX) the writer whose output the reader must reproduce addresses index-1 / index+len(Remove). Negative rows of R-PATCHSEQ: a test that is not adjacent to the edit is never folded into before-context, a test above the edit never into after-context. R-DASHAPPEND: the index -1 exit commits only behind loops that let nothing but the boundary marker pass as context, and appends behind the members. R-PREPEND/R-COALESCE: adds coalesced at the append position keep their order; an element with context of its own is not folded into the previous hunk. R-PARENT/R-OPSUBSET compare fields of two different ops. R-AFTERPOS: somewhere in what ReadPatchString reaches the index of the after-context test is compared (==/!=) with the hunk's index plus the number of its removals, and every successful return of a diff lies behind that comparison (the patch tests before the removals, the hunk compares after them).",
 		NotDecided:  "The full index case analysis of the context inference (which of up to three ops are context for every op sequence).",
 		Assumptions: commonAssumptions,
 		Run: func(w *World, r *Report) {
@@ -464,6 +464,7 @@ func init() {
 			safely(r, "ruleDashAppend", func() { ruleDashAppend(w, r, pf) })
 			safely(r, "ruleDiffReaders", func() { ruleDiffReaders(w, r, v2, "v2", "Patch") })
 			safely(r, "rulePatchSeq", func() { rulePatchSeq(w, r, v2) })
+			safely(r, "ruleAfterPos", func() { ruleAfterPos(w, r, v2) })
 			safely(r, "ruleParent", func() { ruleParent(w, r, v2) })
 			safely(r, "rulePtrRead", func() { rulePtrRead(w, r, v2) })
 			safely(r, "rulePtrAgree", func() { rulePtrAgree(w, r, v2) })
